@@ -69,7 +69,7 @@ class LabeledUnicast(NLRI):
                 prefix_hex = nlri_data[offset - prefix_byte_len: offset]
                 for i in range(0, (128 - prefix_mask) // 8):
                     prefix_hex += b'\x00'
-                prefix = str(netaddr.IPAddress(int(binascii.b2a_hex(prefix_hex), 16))) + '/' + str(prefix_mask)
+                prefix = str(netaddr.IPAddress(int(binascii.b2a_hex(prefix_hex), 16), 6)) + '/' + str(prefix_mask)
             nlri_data = nlri_data[offset:]
             if addpath:
                 nlri_list.append({'path_id': path_id, 'prefix': prefix, 'label': label})
